@@ -65,7 +65,7 @@ func judgeWellFormed(c *core.Ctx, stream string, idx int, p model.Piece, f model
 
 func checkC08(c *core.Ctx) {
 	c.Rule("every file produced by a successful `crd write` (stdout or -o) is pushed through a strict SMF 1.0 decoder written from the specification plus pairing/format/first-track checks: " +
-		"(a) pieces from the generators of the other write checks on an own seed stream, (b) dedicated pieces x track counts 1..64 x instrument strings x program numbers x long texts x chords striking one key twice, (c) probes just outside the representable domain (>= 2^28 ticks, huge track counts) where refusal or a well-formed file are both fine; " +
+		"(a) pieces from the generators of the other write checks on an own seed stream, (b) dedicated pieces x track counts 1..64 x instrument strings x program numbers x long texts x chords striking one key twice, (b2) chords above the MIDI range (degrees 16..115) and chords of 0 ticks, (c) probes just outside the representable domain (>= 2^28 ticks, huge track counts) where refusal or a well-formed file are both fine; " +
 		"non-trivial = decoded file with more than one track or more than 3 instances; distinct by case")
 	c.Assume("smfdec implements SMF 1.0 strictly: chunk lengths, VLQ <= 4 bytes, running status, data bytes < 128, one end-of-track per track and last", "only successful runs are judged")
 
